@@ -368,3 +368,54 @@ func setSmall(v reflect.Value, n int) {
 		v.SetUint(uint64(n))
 	}
 }
+
+// WrapDeep nests the value of s below `levels` further containers (objects,
+// arrays or alternating), sometimes with siblings before and after the nested
+// entry, with known or unknown lengths.
+func WrapDeep(r *Rand, s val.Stream, levels int) val.Stream {
+	shape := r.Intn(3)
+	for i := 0; i < levels; i++ {
+		obj := shape == 0 || (shape == 2 && i%2 == 0)
+		before, after := r.P(1, 3), r.P(1, 3)
+		n := 1
+		if before {
+			n++
+		}
+		if after {
+			n++
+		}
+		l := -1
+		if r.Bool() {
+			l = n
+		}
+		var out val.Stream
+		if obj {
+			out = append(out, val.Event{K: val.EObjStart, N: l})
+			if before {
+				out = append(out, val.Event{K: val.EKey, S: "a_before"}, val.Event{K: val.EInt64, I: int64(i)})
+			}
+			kk := val.EKey
+			if r.Bool() {
+				kk = val.EKeyRef
+			}
+			out = append(out, val.Event{K: kk, S: "n"})
+			out = append(out, s...)
+			if after {
+				out = append(out, val.Event{K: val.EKey, S: "z_after"}, val.Event{K: val.EString, S: "after"})
+			}
+			out = append(out, val.Event{K: val.EObjEnd})
+		} else {
+			out = append(out, val.Event{K: val.EArrStart, N: l})
+			if before {
+				out = append(out, val.Event{K: val.EInt64, I: int64(i)})
+			}
+			out = append(out, s...)
+			if after {
+				out = append(out, val.Event{K: val.EString, S: "after"})
+			}
+			out = append(out, val.Event{K: val.EArrEnd})
+		}
+		s = out
+	}
+	return s
+}
